@@ -125,7 +125,7 @@ Section Engine.
   Definition fixed_run (L0 Lmax N : nat) : option (list lev) :=
     if Nat.ltb Lmax L0 then None
     else
-      let initial := map (fun l => mkLev O N O 0 (map (garbage l) (seq 0 N))) (seq 0 (S L0)) in
+      let initial := map (init_level N) (seq 0 (S L0)) in
       let added := map (fun _ => mkLev O N O 0 []) (seq (S L0) (Lmax - L0)) in
       Some (run_levels 0 (map ext_level (initial ++ added))).
 End Engine.
